@@ -144,7 +144,7 @@ def build_tree(cls_name, f, lab="uniq"):
 
     if lab == "eq":
         # all nodes hold equal data (distinct ids): the traversal must tell nodes apart by identity
-        label, did = (lambda i: "x"), (lambda i: f"id{i}")
+        label, did = (lambda i: "t"), (lambda i: f"id{i}")  # "t" is also the name of the tree
     else:
         label, did = (lambda i: f"n{i}"), None
     if cls_name == "typed":
@@ -356,6 +356,9 @@ def cases_for_shape(f, *, cls, all_forms, rng):
         for add_self in ([False] if s == -1 else [False, True]):
             for m in ITER_METHODS:
                 yield {"cls": cls, "f": fc, "start": s, "method": m, "add_self": add_self, "mode": "iter"}
+                if sh.n >= 2:
+                    # all nodes hold equal data (and the tree's name equals it, too): nodes are told apart by identity only
+                    yield {"cls": cls, "f": fc, "start": s, "method": m, "add_self": add_self, "mode": "iter", "lab": "eq"}
             for m in VISIT_METHODS:
                 seq = sh.order(s, m, add_self)
                 yield {"cls": cls, "f": fc, "start": s, "method": m, "add_self": add_self, "mode": "visit", "sig": None}
